@@ -213,7 +213,7 @@ func registerTimeIntrinsics() {
 		return p.freshVar("time.Since", 64, true)
 	}
 	intrinsics["time.Sleep"] = func(p *Path, th *Thread, fr *Frame, args []Value) Value {
-		p.sched.syncPoint(th, nil)
+		p.sched.yield(th)
 		return nil
 	}
 	intrinsics["time.After"] = func(p *Path, th *Thread, fr *Frame, args []Value) Value {
